@@ -81,9 +81,16 @@ def run(ck):
     lib = ctx.lib(ck)
     if lib is None:
         return
+    if not rule_R(ck, lib, "C06-R"):
+        return
+    rule_rest(ck, lib)
+
+
+def rule_R(ck, lib, RID):
+    """Per loop-body path of run: who is reported, when, and where the input continues."""
     rs = runsum.RunSummary(ck, lib)
     if not rs.ok:
-        return
+        return False
     inp = rs.input_arg
     n_paths = 0
     seen = set()
@@ -102,47 +109,52 @@ def run(ck):
         data = {"path": pathsum.show_exit(x)[:2500]}
         nxt = x.value if x.kind == "return" else x.env.get(rs.input_id)
         if d.get("parse_err") is None:
-            ck.bad("C06-R", key, "path does not determine whether parse succeeded", where, data)
+            ck.bad(RID, key, "path does not determine whether parse succeeded", where, data)
             continue
         if d["parse_err"]:
             if d.get("incomplete"):
                 ok = not hs and x.kind == "return" and x.value == inp
-                ck.judge(ok, "C06-R", key, "Incomplete: silent, returns the input unchanged",
+                ck.judge(ok, RID, key, "Incomplete: silent, returns the input unchanged",
                          "Incomplete path must report nothing and return the input unchanged (reports: %d, exit: %s %s)" % (len(hs), x.kind, show_term(x.value) if x.value else ""), where, data)
             elif d.get("incomplete") is False:
                 ok1 = len(hs) == 1 and is_converted(hs[0][2][-1], rs.errp)
-                ck.judge(ok1, "C06-R", key + ":report", "exactly one handle_error(Error::from(parse error))",
+                ck.judge(ok1, RID, key + ":report", "exactly one handle_error(Error::from(parse error))",
                          "parse-error path reports %d times%s" % (len(hs), (" with argument " + show_term(hs[0][2][-1])) if hs else ""), where, data)
                 ok2, why = skips_message(nxt, inp, x, rs.ps, lib)
                 if x.kind == "return" and nxt == inp:
                     why = "returns the unadvanced input: the faulty message stays at the front of the buffer, so a streaming caller re-parses and re-reports it and later messages never run"
-                ck.judge(ok2, "C06-R", key + ":skip", why, why, where, data)
+                ck.judge(ok2, RID, key + ":skip", why, why, where, data)
             else:
-                ck.bad("C06-R", key, "error path does not distinguish Incomplete from other errors", where, data)
+                ck.bad(RID, key, "error path does not distinguish Incomplete from other errors", where, data)
             continue
         # parse ok
         if d.get("call_some") is False:
-            ck.judge(not hs, "C06-R", key, "empty message: no report", "empty message reports an error", where, data)
+            ck.judge(not hs, RID, key, "empty message: no report", "empty message reports an error", where, data)
         elif d.get("call_some"):
             ex = d.get("execute_calls", [])
-            if not ck.judge(len(ex) == 1, "C06-R", key + ":execute-once", "unit executed once", "unit executed %d times" % len(ex), where, data):
+            if not ck.judge(len(ex) == 1, RID, key + ":execute-once", "unit executed once", "unit executed %d times" % len(ex), where, data):
                 continue
             et = d["execute_term"]
             if d.get("exec_err"):
                 ok = len(hs) == 1 and hs[0][2][-1] == ("payload", et, ERR, 0)
-                ck.judge(ok, "C06-R", key + ":report", "exactly one handle_error(e) with e the payload of execute's Err, unchanged",
+                ck.judge(ok, RID, key + ":report", "exactly one handle_error(e) with e the payload of execute's Err, unchanged",
                          "execution-error path reports %d times%s" % (len(hs), (" with argument " + show_term(hs[0][2][-1])) if hs else ""), where, data)
             elif d.get("exec_err") is False:
-                ck.judge(not hs, "C06-R", key + ":report", "successful unit: no report", "successful unit reports an error", where, data)
+                ck.judge(not hs, RID, key + ":report", "successful unit: no report", "successful unit reports an error", where, data)
             else:
-                ck.bad("C06-R", key, "path does not inspect execute's result", where, data)
+                ck.bad(RID, key, "path does not inspect execute's result", where, data)
         if x.kind == "backedge":
-            ck.judge(nxt == rs.rem, "C06-R", key + ":advance", "continues with the remainder returned by parse",
+            ck.judge(nxt == rs.rem, RID, key + ":advance", "continues with the remainder returned by parse",
                      "continues with `%s` instead of the remainder returned by parse" % show_term(nxt), where, data)
         elif x.kind == "return":
-            ck.bad("C06-R", key + ":advance", "returns `%s` after a successfully parsed unit (later units/messages would not run)" % show_term(x.value), where, data)
-    ck.floor("C06-R", "loop-body paths of run", n_paths, 8)
+            ck.bad(RID, key + ":advance", "returns `%s` after a successfully parsed unit (later units/messages would not run)" % show_term(x.value), where, data)
+    ck.floor(RID, "loop-body paths of run", n_paths, 8)
 
+    return True
+
+
+def rule_rest(ck, lib):
+    rs = runsum.RunSummary(ck, lib)
     # ---- C06-V: execute propagates execute_command's error unchanged
     exits, ps = ctx.summarize(lib, EXECUTE, ck)
     if ck.anchor("C06-V", EXECUTE, exits):
